@@ -102,15 +102,54 @@ def class_table(tree, problems):
                 fn = attrs['def __init__']
                 names = [a.arg for a in fn.args.args + fn.args.kwonlyargs]
                 ent['move'] = 'location' in names
-            for k in attrs:
-                if k in ('status', 'has_body', 'body', 'charset', 'content_type', 'html_template_obj',
-                         'plain_template_obj', 'def prepare', 'def __call__', 'def _json_formatter',
-                         'def substitute') and cd.name != 'HTTPException':
-                    raise ValueError('overrides %s' % k)
+            # class bodies are part of the tie: nothing but the modelled attributes / the known constructors
+            if cd.name == 'HTTPException':
+                allowed = {'code', 'title', 'explanation', 'body_template_obj', 'plain_template_obj', 'html_template_obj',
+                           'empty_body', 'exception', 'def __init__', 'def __str__', 'def _json_formatter', 'def prepare',
+                           'def wsgi_response', 'def __call__'}
+                if [ast.dump(d) for d in cd.decorator_list] != [
+                        "Call(func=Name(id='implementer', ctx=Load()), args=[Name(id='IExceptionResponse', ctx=Load())], keywords=[])"]:
+                    raise ValueError('decorators changed (the default exception view is registered for IExceptionResponse)')
+                if 'exception' in attrs and ast.dump(attrs['exception']) != "Name(id='wsgi_response', ctx=Load())":
+                    raise ValueError('class attribute exception is not the wsgi_response alias')
+            else:
+                allowed = {'code', 'title', 'explanation', 'body_template_obj', 'empty_body'}
+                if cd.name in ('_HTTPMove', 'HTTPForbidden'):
+                    allowed = allowed | {'def __init__'}
+                if cd.decorator_list or cd.keywords:
+                    raise ValueError('decorated / metaclass')
+            extra = sorted(k for k in attrs if k not in allowed)
+            if extra:
+                raise ValueError('class body defines %s, which the model does not know' % extra)
+            for st in cd.body:
+                if not isinstance(st, (ast.Assign, ast.FunctionDef, ast.Pass)) and not (
+                        isinstance(st, ast.Expr) and isinstance(st.value, ast.Constant)):
+                    raise ValueError('class body statement %s' % type(st).__name__)
+                if isinstance(st, ast.FunctionDef) and st.decorator_list and not (
+                        cd.name == 'HTTPException' and st.name == 'wsgi_response'
+                        and [ast.dump(d) for d in st.decorator_list] == ["Name(id='property', ctx=Load())"]):
+                    raise ValueError('method %s is decorated' % st.name)
         except ValueError as e:
             problems.append('class %s: %s' % (cd.name, e))
         table[cd.name] = ent
         order.append(cd.name)
+    # a class name must be bound once, by its class statement
+    seen = {}
+    for st in tree.body:
+        names = []
+        if isinstance(st, ast.ClassDef):
+            names = [st.name]
+        elif isinstance(st, ast.Assign):
+            names = [t.id for t in st.targets if isinstance(t, ast.Name)]
+        elif isinstance(st, (ast.Import, ast.ImportFrom)):
+            names = [(a.asname or a.name).split('.')[0] for a in st.names]
+        elif isinstance(st, ast.FunctionDef):
+            names = [st.name]
+        for n in names:
+            seen[n] = seen.get(n, 0) + 1
+    for n in order:
+        if seen.get(n, 0) != 1:
+            problems.append('class %s is bound %d times at module level' % (n, seen.get(n, 0)))
     res = []
     for n in order:
         e = table[n]
